@@ -44,6 +44,8 @@ def jobs(tier, seed):
         out.append({"kind": "nodeversions", "part": part})
     for c in CLASSES[:4]:
         out.append({"kind": "connect", "cls": c})
+        if "Serial" in c:
+            out.append({"kind": "port-symlink", "cls": c})
     for c in CLASSES:
         out.append({"kind": "persist-effect", "cls": c})
     # the host option of the TCP classes against a real device on the loopback interface, IPv4 and IPv6
@@ -534,6 +536,100 @@ def run_connect(job, res):
     res.sample({"kind": "connect", "cls": clsname})
 
 
+def run_port_symlink(job, res):
+    """The serial port option is honoured at EVERY connect: configured as a stable symbolic name (/dev/serial/by-id/...) that
+    is re-pointed to another device between two attempts, the retry opens what the name points at then."""
+    import shutil
+    import tempfile
+    import threading
+
+    import serial
+    import mysensors.gateway_serial as gs
+    from ..fakes import Patched, VLoop
+
+    clsname = job["cls"]
+    tmp = tempfile.mkdtemp(prefix="vf-c18p-")
+    try:
+        os.mkdir(os.path.join(tmp, "by-id"))
+        for n in ("ttyA", "ttyB"):
+            open(os.path.join(tmp, n), "w").close()
+        link = os.path.join(tmp, "by-id", "usb-gateway")
+        os.symlink(os.path.join("..", "ttyA"), link)
+        seen = []
+
+        def note(url):
+            seen.append((str(url), os.path.realpath(str(url))))
+            if len(seen) == 1:
+                os.remove(link)
+                os.symlink(os.path.join("..", "ttyB"), link)      # the device re-enumerated; udev re-pointed the name
+
+        case = {"kind": "port-symlink", "cls": clsname}
+        res.evals += 1
+        try:
+            gw = get_class(clsname)(link, reconnect_timeout=0.5)
+        except Exception as exc:
+            res.violation(f"constructor-raises:{type(exc).__name__}:symlinked-port", f"{clsname}({link!r}) raised {type(exc).__name__}: {exc}", case)
+            return
+        t = gw.tasks.transport
+        if not clsname.startswith("Async"):
+            done = threading.Event()
+            sleeps = []
+
+            class FakeTime:
+                def time(self):
+                    return 0.0
+
+                def sleep(self, dt):
+                    sleeps.append(dt)
+                    if len(sleeps) >= 2:
+                        t.disconnect()
+                        done.set()
+
+            class SerMod:
+                SerialException = serial.SerialException
+                threaded = serial.threaded
+                tools = getattr(serial, "tools", None)
+
+                def serial_for_url(self, *a, **k):
+                    note(a[0] if a else k.get("url"))
+                    raise serial.SerialException("nope")
+
+            with Patched((gs, "time", FakeTime()), (gs, "serial", SerMod())):
+                t.connect()
+                done.wait(5)
+        else:
+            loop = VLoop()
+
+            class SA:
+                async def create_serial_connection(self, *a, **k):
+                    note(a[2] if len(a) > 2 else k.get("url"))
+                    raise serial.SerialException("nope")
+
+            with Patched((gs, "serial_asyncio", SA())):
+                async def main():
+                    task = loop.create_task(t.connect())
+                    await asyncio.sleep(0.5 * 2.5)
+                    task.cancel()
+                    try:
+                        await task
+                    except BaseException:
+                        pass
+                loop.run_until_complete(main())
+            loop.close()
+        res.count("symlinked_port_attempts", len(seen))
+        res.nontrivial((clsname, "port-symlink"))
+        if len(seen) < 2:
+            res.notes.append(f"{clsname}: fewer than two connect attempts observed with a symlinked port ({seen})")
+            return
+        want = os.path.realpath(os.path.join(tmp, "ttyB"))
+        if seen[1][1] != want:
+            res.violation("connect-ignores:port:symlink-re-pointed", f"{clsname}: port configured as {link!r}, re-pointed to ttyB before the retry; the retry opened {seen[1][0]!r} (= {seen[1][1]!r})", case)
+        if str(getattr(gw, "port", link)) != link:
+            res.violation("option-not-kept:port", f"{clsname}: gateway.port is {getattr(gw, 'port', None)!r}, configured {link!r}", case)
+    finally:
+        shutil.rmtree(tmp, ignore_errors=True)
+
+
 def run_persist_effect(job, res):
     """persistence=True / persistence_file take effect: what the gateway held at stop() is there after a restart,
     with and without an event callback, for every gateway class."""
@@ -661,6 +757,9 @@ def run(job):
     if job["kind"] == "real-host":
         run_real_host(job, res)
         return res
+    if job["kind"] == "port-symlink":
+        run_port_symlink(job, res)
+        return res
     if job["kind"] == "persist-effect":
         run_persist_effect(job, res)
         return res
@@ -674,7 +773,7 @@ def replay(case):
     k = case["kind"]
     if k == "real-host":
         r = run({"kind": k, "flavour": case["flavour"], "host": case["host"]})
-    elif k == "persist-effect":
+    elif k == "persist-effect" or k == "port-symlink":
         r = run({"kind": k, "cls": case["cls"]})
     elif k == "subsets" or k == "connect":
         r = run({"kind": k, "cls": case["cls"], "seed": 0})
@@ -710,7 +809,7 @@ def finish(agg, tier):
         "floors": [("constructed", c.get("constructed", 0), 1200), ("gateway_versions_judged", c.get("gateway_versions_judged", 0), 260),
                    ("gateway_version_conversations_compared", c.get("gateway_version_conversations_compared", 0), 250),
                    ("node_versions_judged", c.get("node_versions_judged", 0), 200), ("readme_snippets_run", c.get("readme_snippets_run", 0), 2),
-                   ("connect_attempts_observed", c.get("connect_attempts_observed", 0), 8), ("mqtt_publish_checks", c.get("mqtt_publish_checks", 0), 200),
+                   ("connect_attempts_observed", c.get("connect_attempts_observed", 0), 8), ("symlinked_port_attempts", c.get("symlinked_port_attempts", 0), 4), ("mqtt_publish_checks", c.get("mqtt_publish_checks", 0), 200),
                    ("persistence_file_spelling:bare", c.get("persistence_file_spelling:bare", 0), 12), ("persistence_file_spelling:default", c.get("persistence_file_spelling:default", 0), 6)]
                   + ([] if c.get("real_device_unavailable") else [("real_host_connections[ipv6]", c.get("real_host_connections[ipv6]", 0), 2),
                                                                   ("real_host_connections[ipv4]", c.get("real_host_connections[ipv4]", 0), 2)]) + [
